@@ -59,12 +59,21 @@ structure Disk where
   app : App := {}
   deriving Repr
 
-/-- the chain being decided: txs of the block at each height (validator updates, parameter
-changes are part of the opaque block content) -/
-abbrev Chain := Nat → List Tx
+/-- the chain being decided: the genesis document's `InitialHeight` (≥ 1; the first block has
+this height) and the txs of the block at each height (validator updates, parameter changes are part
+of the opaque block content) -/
+structure Chain where
+  ih : Nat := 1
+  txs : Nat → List Tx
 
-/-- history after committing blocks 1..n of the chain -/
-def hist (c : Chain) (n : Nat) : Hist := (List.range n).map fun i => (i + 1, c (i + 1))
+instance : CoeFun Chain (fun _ => Nat → List Tx) := ⟨Chain.txs⟩
+
+/-- the height after `n`: `LastBlockHeight + 1`, except that the first block has `InitialHeight`
+(consensus/state.go updateToState, state/validation.go) -/
+def nxt (c : Chain) (n : Nat) : Nat := if n = 0 then c.ih else n + 1
+
+/-- history after committing the blocks `InitialHeight..n` of the chain (empty for `n < ih`) -/
+def hist (c : Chain) (n : Nat) : Hist := (List.range (n + 1 - c.ih)).map fun i => (c.ih + i, c (c.ih + i))
 
 /-! ## the recording application (accepts every call, records it) -/
 
@@ -77,9 +86,10 @@ def App.call (a : App) (k : Call) : App :=
     { a with pending := a.pending.map fun p => { p with txs := p.txs ++ [tx] } }
   | .endBlock _ => { a with pending := a.pending.map fun p => { p with ended := true } }
   | .commit =>
+    -- the application reports the header height of the block it committed
     match a.pending with
-    | some p => { a with height := a.height + 1, hash := a.hash ++ [(p.h, p.txs)], pending := none }
-    | none => { a with height := a.height + 1, hash := a.hash ++ [(0, [])], pending := none }
+    | some p => { a with height := p.h, hash := a.hash ++ [(p.h, p.txs)], pending := none }
+    | none => { a with height := a.height + 1, hash := a.hash ++ [(0, [a.height + 1])], pending := none }
   | .restart => { a with pending := none }
 
 /-! ## effects -/
@@ -124,7 +134,7 @@ def execEffs (c : Chain) (h : Nat) : List Eff :=
 the state's app hash, and block 1 carries the `LastResultsHash` of the *completed* genesis state
 (everything else in the header is fixed by the chain) -/
 def validBlock (c : Chain) (d : Disk) (h : Nat) : Bool :=
-  h == d.stateH + 1 && hist c (h - 1) == d.stateHash && (decide (0 < d.stateH) || d.genesisSaved)
+  h == nxt c d.stateH && hist c (h - 1) == d.stateHash && (decide (0 < d.stateH) || d.genesisSaved)
 
 /-- `BlockExecutor.ApplyBlock` on the real application, after validation -/
 def applyBlockReal (c : Chain) (h : Nat) : List Eff :=
@@ -150,6 +160,7 @@ def finalizeEffs (c : Chain) (d : Disk) (h : Nat) : Option (List Eff) :=
 inductive Outcome
   | ok
   | errAppTooHigh      -- ErrAppBlockHeightTooHigh
+  | errAppTooLow       -- ErrAppBlockHeightTooLow (application below the block store's base)
   | panicStateAhead    -- "StateBlockHeight > StoreBlockHeight"
   | panicStoreAhead    -- "StoreBlockHeight > StateBlockHeight + 1"
   | errNoResp          -- LoadLastABCIResponse fails
@@ -160,7 +171,7 @@ inductive Outcome
   deriving DecidableEq, Repr
 
 inductive Branch
-  | storeEmpty | appTooHigh | stateAhead | storeAhead
+  | storeEmpty | appTooHigh | appTooLow | stateAhead | storeAhead
   | replayNoMutate | synced | replayMutate | lastReal | lastMock | uncovered
   deriving DecidableEq, Repr
 
@@ -187,7 +198,7 @@ the effects already done (InitChain) -/
 def replayBlocks (c : Chain) (d0 : Disk) (pre : List Eff) (appH storeH : Nat) (mutate : Bool)
     (br : Branch) : HsResult :=
   let final := if mutate then storeH - 1 else storeH
-  let first := appH + 1
+  let first := if appH + 1 = 1 then c.ih else appH + 1
   match replayLoop c d0 ((List.range' first (final + 1 - first))) pre [] 0 with
   | .error (acc, n) => ⟨acc, br, .panicHashBlock, n⟩
   | .ok (acc, appHash, n) =>
@@ -202,8 +213,8 @@ def replayBlocks (c : Chain) (d0 : Disk) (pre : List Eff) (appH storeH : Nat) (m
       if appHash = (applyEffs d0 acc).stateHash then ⟨acc, br, .ok, n⟩
       else ⟨acc, br, .panicHashState, n⟩
 
-/-- `Handshaker.Handshake` + `ReplayBlocks` (block store never pruned: base = 1 when non-empty,
-initial height 1) -/
+/-- `Handshaker.Handshake` + `ReplayBlocks` (block store never pruned: its base is the first block's
+height, `InitialHeight`, when non-empty) -/
 def handshake (c : Chain) (d0 : Disk) : HsResult :=
   let appH := d0.app.height
   let storeH := d0.storeH
@@ -215,6 +226,7 @@ def handshake (c : Chain) (d0 : Disk) : HsResult :=
   if storeH = 0 then
     if appHash = d0.stateHash then ⟨pre, .storeEmpty, .ok, 0⟩
     else ⟨pre, .storeEmpty, .panicHashState, 0⟩
+  else if 0 < appH ∧ appH < c.ih - 1 then ⟨pre, .appTooLow, .errAppTooLow, 0⟩
   else if storeH < appH then ⟨pre, .appTooHigh, .errAppTooHigh, 0⟩
   else if storeH < stateH then ⟨pre, .stateAhead, .panicStateAhead, 0⟩
   else if storeH > stateH + 1 then ⟨pre, .storeAhead, .panicStoreAhead, 0⟩
@@ -290,7 +302,7 @@ def stepSys (c : Chain) (s : Sys) : Op → Sys
     else if completed then ⟨crash d, false, false⟩ else ⟨d, false, false⟩
   | .commit k =>
     if s.up ∧ s.live then
-      match finalizeEffs c s.disk (s.disk.stateH + 1) with
+      match finalizeEffs c s.disk (nxt c s.disk.stateH) with
       | some es =>
         let (d, completed) := runProg s.disk es k
         ⟨d, completed, completed⟩
@@ -316,7 +328,7 @@ abandoned by a process death is closed by the restart marker); txs in block orde
 all txs; Commit only after End. -/
 def jstep (c : Chain) (s : JState) : Call → Option JState
   | .initChain => if s.committed = 0 ∧ s.opn = none then some s else none
-  | .begin h => if h = s.committed + 1 ∧ s.opn = none
+  | .begin h => if h = nxt c s.committed ∧ s.opn = none
       then some { s with opn := some { h := h, txs := [], ended := false } } else none
   | .deliver tx =>
     match s.opn with
